@@ -95,7 +95,7 @@ class Options:
 
 
 def abstract_request(v, optional=(), always=(), repeatable=(), sym_path=False, sym_query=False, sym_method=False, root=False, remote='optional',
-                     ports=(80, 443, 8080), strip=False):
+                     ports=(80,), schemes=('http',), omit_scheme=False, qs_flags=False, strip=False):
     a = Abstract()
     a.method = v.str('method') if sym_method else 'GET'
     if sym_path:
@@ -109,7 +109,8 @@ def abstract_request(v, optional=(), always=(), repeatable=(), sym_path=False, s
             v.assume(is_ascii(a.query))
     else:
         a.query = ''
-    a.scheme = v.one_of('scheme', 'http', 'https')
+    a.scheme = v.one_of('scheme', *schemes) if len(schemes) > 1 else schemes[0]
+    a.scope_may_omit_scheme = omit_scheme
     a.server_name = v.str('server_name')
     a.server_port = v.one_of('server-port', *ports) if len(ports) > 1 else ports[0]
     if remote == 'optional':
@@ -125,8 +126,8 @@ def abstract_request(v, optional=(), always=(), repeatable=(), sym_path=False, s
     for n in repeatable:
         if any(k == n for k, _ in a.headers) and v.choose(2, 'repeated-' + n):
             a.headers.append((n, header_bytes(v, n + '_again')))
-    a.options = Options(strip=strip, keep_blank=bool(v.choose(2, 'keep_blank_qs_values')) if sym_query else True,
-                        csv=bool(v.choose(2, 'auto_parse_qs_csv')) if sym_query else False)
+    flags = v.choose(2, 'qs-option-flags') if qs_flags else 0
+    a.options = Options(strip=strip, keep_blank=not flags, csv=bool(flags))
     return a
 
 
@@ -160,7 +161,7 @@ def couple(v, a):
         env['QUERY_STRING'] = a.query
     scope['query_string'] = as_bytes(a.query) if a.query is not None else b''
     # "scheme ... Optional; if missing defaults to http" (ASGI spec)
-    if not (a.scheme == 'http' and v.choose(2, 'scope-omits-default-scheme')):
+    if not (a.scheme == 'http' and a.scope_may_omit_scheme and v.choose(2, 'scope-omits-default-scheme')):
         scope['scheme'] = a.scheme
     if a.remote is not None:
         env['REMOTE_ADDR'] = a.remote
@@ -221,13 +222,13 @@ class SharedParser:
 class World:
     """Both requests built from one abstract request, plus the shared opaque functions."""
 
-    def __init__(self, v, a, hops=1):
+    def __init__(self, v, a, hops=1, hop_fields=('src', 'host', 'scheme')):
         self.v, self.a = v, a
         self.env, self.scope = couple(v, a)
 
         def mk_hops():
             n = v.choose(hops + 1, 'hops')
-            return [hop(v, i, ('src', 'host', 'scheme')) for i in range(n)]
+            return [hop(v, i, hop_fields) for i in range(n)]
 
         self.parsers = {
             'parse_query_string': SharedParser(v, 'parse_query_string', [lambda: Opaque('query parameters')]),
@@ -378,7 +379,7 @@ def constructed(v, w):
 
 
 def _construction(v, strip):
-    a = abstract_request(v, optional=['content-type'], sym_path=True, sym_query=True, sym_method=True, root=True, ports=(80,), remote=False, strip=strip)
+    a = abstract_request(v, optional=['content-type'], sym_path=True, sym_query=True, sym_method=True, root=True, remote=False, qs_flags=True, strip=strip)
     with World(v, a) as w:
         if not constructed(v, w):
             return
@@ -411,7 +412,7 @@ NAMES = ['X-Token', 'x-token', 'X-TOKEN', 'x-ToKeN', 'Content-Type', 'content-ty
 
 @harness(PROP, AREQ + '.get_header', name='eq_get_header', setup=_setup, inline=INLINE)
 def eq_get_header(v):
-    a = abstract_request(v, optional=['x-token', 'content-type', 'content-length'], ports=(80,), remote=False)
+    a = abstract_request(v, optional=['x-token', 'content-type', 'content-length'], remote=False)
     with World(v, a) as w:
         if not constructed(v, w):
             return
@@ -427,7 +428,7 @@ FOLDED = ['x-forwarded-for', 'accept', 'host', 'cookie', 'content-type', 'x-toke
 
 def _folding(v, n):
     """Repeated header lines: list-valued fields are joined by ',', singleton fields keep their last occurrence -- on both sides."""
-    a = abstract_request(v, always=[n], repeatable=[n], ports=(80,), remote=False)
+    a = abstract_request(v, always=[n], repeatable=[n], remote=False)
     with World(v, a) as w:
         if not constructed(v, w):
             return
@@ -453,7 +454,7 @@ def lower_keys(d):
 @harness(PROP, AREQ + '.headers', name='eq_headers', setup=_setup, inline=INLINE)
 def eq_headers(v):
     """headers: WSGI documents upper-cased names, ASGI lower-cased ones -> compared modulo case; headers_lower is documented as the uniform view."""
-    a = abstract_request(v, optional=['host', 'content-type', 'content-length', 'x-token', 'if-modified-since'], ports=(80,), remote=False)
+    a = abstract_request(v, optional=['host', 'content-type', 'content-length', 'x-token', 'if-modified-since'], remote=False)
     with World(v, a) as w:
         if not constructed(v, w):
             return
@@ -470,7 +471,7 @@ def eq_headers(v):
 @harness(PROP, AREQ + '.user_agent', name='eq_header_properties', setup=_setup, inline=INLINE)
 def eq_header_properties(v):
     hdrs = {'user_agent': 'user-agent', 'auth': 'authorization', 'expect': 'expect', 'if_range': 'if-range', 'referer': 'referer'}
-    a = abstract_request(v, optional=list(hdrs.values()), ports=(80,), remote=False)
+    a = abstract_request(v, optional=list(hdrs.values()), remote=False)
     with World(v, a) as w:
         if not constructed(v, w):
             return
@@ -484,7 +485,7 @@ def eq_header_properties(v):
 
 @harness(PROP, AREQ + '.content_length', name='eq_content_length', setup=_setup, inline=INLINE)
 def eq_content_length(v):
-    a = abstract_request(v, optional=['content-length', 'x-count'], ports=(80,), remote=False)
+    a = abstract_request(v, optional=['content-length', 'x-count'], remote=False)
     with World(v, a) as w:
         if not constructed(v, w):
             return
@@ -496,7 +497,7 @@ def eq_content_length(v):
 
 @harness(PROP, WREQ + '.range', name='eq_range', setup=_setup, inline=INLINE)
 def eq_range(v):
-    a = abstract_request(v, optional=['range'], ports=(80,), remote=False)
+    a = abstract_request(v, optional=['range'], remote=False)
     with World(v, a) as w:
         if not constructed(v, w):
             return
@@ -511,7 +512,11 @@ def eq_range(v):
 
 @harness(PROP, AREQ + '.host', name='eq_host_port_netloc', setup=_setup, inline=INLINE)
 def eq_host_port_netloc(v):
-    a = abstract_request(v, optional=['host'], remote=False)
+    # with a Host header only the scheme matters (default port); without one the server entry is read
+    if v.choose(2, 'has-host'):
+        a = abstract_request(v, always=['host'], schemes=('http', 'https'), omit_scheme=True, remote=False)
+    else:
+        a = abstract_request(v, schemes=('http', 'https'), ports=(80, 443, 8080), omit_scheme=True, remote=False)
     with World(v, a) as w:
         if not constructed(v, w):
             return
@@ -526,8 +531,8 @@ def eq_host_port_netloc(v):
 
 def _forwarding(v, group):
     hdrs = [['forwarded'], ['x-forwarded-proto', 'x-forwarded-host'], ['forwarded', 'x-forwarded-proto', 'x-forwarded-host'], []][group]
-    a = abstract_request(v, optional=['host'], always=hdrs, ports=(80, 8080), remote=False)
-    with World(v, a, hops=2) as w:
+    a = abstract_request(v, optional=['host'], always=hdrs, ports=(80, 8080), schemes=('http', 'https'), remote=False)
+    with World(v, a, hops=2, hop_fields=('host', 'scheme')) as w:
         if not constructed(v, w):
             return
         for name in ('forwarded', 'forwarded_scheme', 'forwarded_host'):
@@ -542,7 +547,7 @@ for _g, _nm in enumerate(['forwarded', 'x-forwarded', 'both', 'none']):
 def _urls(v, group):
     hdrs = [[], ['forwarded'], ['x-forwarded-proto', 'x-forwarded-host']][group]
     a = abstract_request(v, optional=['host'], always=hdrs, sym_path=True, sym_query=True, root=True, ports=(80, 8080), remote=False)
-    with World(v, a) as w:
+    with World(v, a, hops=1, hop_fields=('host', 'scheme')) as w:
         if not constructed(v, w):
             return
         for name in ('relative_uri', 'uri', 'url', 'prefix', 'forwarded_uri', 'forwarded_prefix'):
@@ -561,11 +566,11 @@ for _g, _nm in enumerate(['plain', 'forwarded', 'x-forwarded']):
 def _route(v, source, what):
     hdrs = [['forwarded'], ['x-forwarded-for'], ['x-real-ip'], []][source]
     lower = ['x-real-ip'] + (['x-forwarded-for'] if source == 0 else []) if source < 2 and v.choose(2, 'lower-priority-headers-too') else []
-    a = abstract_request(v, always=hdrs + lower, ports=(80,))
+    a = abstract_request(v, always=hdrs + lower)
     if source == 1:
         xff = [val for n, val in a.headers if n == 'x-forwarded-for'][0]
         bounded_split(v, as_text(xff), ',', MAX_PIECES)  # bounded: at most MAX_PIECES addresses (C09)
-    with World(v, a, hops=1) as w:
+    with World(v, a, hops=1, hop_fields=('src',)) as w:
         if not constructed(v, w):
             return
         if what == 'access_route':
@@ -591,22 +596,26 @@ for _src, _nm in enumerate(['forwarded', 'x-forwarded-for', 'x-real-ip', 'peer-o
 # accept checks, conditional / date / cookie accessors over the same opaque parsers
 
 
-@harness(PROP, AREQ + '.accept', name='eq_accept', setup=_setup, inline=INLINE)
-def eq_accept(v):
-    a = abstract_request(v, optional=['accept'], ports=(80,), remote=False)
+def _accept(v, names):
+    a = abstract_request(v, optional=['accept'], remote=False)
     with World(v, a) as w:
         if not constructed(v, w):
             return
-        both(v, w, 'accept')
-        both(v, w, 'client_accepts', (v.str('media_type'),), {})
-        for name in ('client_accepts_json', 'client_accepts_xml', 'client_accepts_msgpack'):
-            both(v, w, name)
+        for name in names:
+            if name == 'client_accepts':
+                both(v, w, name, (v.str('media_type'),), {})
+            else:
+                both(v, w, name)
         v.cover('read')
+
+
+for _nm, _names in (('accept', ['accept', 'client_accepts']), ('json-xml', ['client_accepts_json', 'client_accepts_xml']), ('msgpack', ['client_accepts_msgpack'])):
+    harness(PROP, AREQ + '.accept', name='eq_accept[%s]' % _nm, setup=_setup, inline=INLINE)((lambda ns: lambda v: _accept(v, ns))(_names))
 
 
 @harness(PROP, AREQ + '.if_match', name='eq_conditional_and_dates', setup=_setup, inline=INLINE)
 def eq_conditional_and_dates(v):
-    a = abstract_request(v, optional=['if-match', 'if-none-match', 'if-modified-since'], ports=(80,), remote=False)
+    a = abstract_request(v, optional=['if-match', 'if-none-match', 'if-modified-since'], remote=False)
     with World(v, a) as w:
         if not constructed(v, w):
             return
@@ -618,7 +627,7 @@ def eq_conditional_and_dates(v):
 
 @harness(PROP, WREQ + '.date', name='eq_dates', setup=_setup, inline=INLINE)
 def eq_dates(v):
-    a = abstract_request(v, optional=['date', 'if-unmodified-since'], ports=(80,), remote=False)
+    a = abstract_request(v, optional=['date', 'if-unmodified-since'], remote=False)
     with World(v, a) as w:
         if not constructed(v, w):
             return
@@ -628,7 +637,7 @@ def eq_dates(v):
 
 @harness(PROP, WREQ + '.cookies', name='eq_cookies', setup=_setup, inline=INLINE)
 def eq_cookies(v):
-    a = abstract_request(v, optional=['cookie'], ports=(80,), remote=False)
+    a = abstract_request(v, optional=['cookie'], remote=False)
     with World(v, a) as w:
         if not constructed(v, w):
             return
